@@ -350,7 +350,19 @@ func ruleNoticeOwners(r *Report) {
 			}
 			key := shortFunc(root) + "/flushNotice-store"
 			if isNilConst(st.Val) {
-				r.Ok(rule, key, st.Pos(), "reset to nil")
+				// reset only right after the channel was closed: clearing it without closing it orphans
+				// the channel that writers are blocked on
+				closes := map[ssa.Instruction]bool{}
+				for _, c := range callSites(fn, "builtin.close") {
+					if fieldOfLoad(c.Common().Args[0]) == "Store.flushNotice" {
+						closes[c] = true
+					}
+				}
+				if ok, path := precededBy(fn, st, closes, nil); ok && len(closes) > 0 {
+					r.Ok(rule, key, st.Pos(), "reset to nil after closing it")
+				} else {
+					r.BadPath(rule, key, st.Pos(), "the notification channel is cleared without having been closed on this path: writers that are blocked on it are never released (every later flush finds the field nil, or closes a newer channel)", path)
+				}
 				continue
 			}
 			ev := condEdges(fn, func(cond ssa.Value) (bool, bool) {
@@ -471,6 +483,47 @@ func ruleGCSingleHandover(r *Report) {
 	}
 	if !bad {
 		r.Ok(rule, key, pfl[0].Pos(), "one hand-over per cycle, before the file loop")
+	}
+	r.Min(rule, 1)
+}
+
+// R-SCAN-ENDS-AT-EOF: the recovery scan of an index file ends successfully only
+// behind a failed read (end of file, or a torn tail that is cut off). Leaving
+// the loop for any other reason — a "defensive" bound on the position, say —
+// silently skips the record lists behind that point; their buckets keep an
+// older position (or none) and the keys in them are absent after the reopen.
+func ruleScanEndsAtEOF(r *Report) {
+	const rule = "scan-ends-at-eof"
+	fn := r.need(rule, "I", "scanIndexFile")
+	if fn == nil {
+		return
+	}
+	key := "scanIndexFile/success-only-behind-a-failed-read"
+	var reads []*ssa.Call
+	var avoid []Edge
+	for _, c := range callSites(fn, "(*os.File).ReadAt", "io.ReadFull") {
+		if cc := asCall(c); cc != nil {
+			reads = append(reads, cc)
+			avoid = append(avoid, failureEdges(cc)...)
+		}
+	}
+	if len(reads) == 0 {
+		r.Bad(rule, key, fn.Pos(), "no read in the scan")
+		return
+	}
+	succ, _ := classifyReturns(fn)
+	bad := false
+	for _, rd := range reads {
+		for _, se := range successEdges(rd) {
+			se := se
+			if reach, path := (Search{Fn: fn, FromEdge: &se, Target: anyOf(instrSet(succ)), AvoidEdges: mkEdgeSet(avoid)}).Run(); reach {
+				bad = true
+				r.BadPath(rule, key, rd.Pos(), "after a successful read the scan can end successfully without a later read having failed (end of file): the record lists behind that point are not applied to the bucket table — keys in them are absent after a reopen that rescans", path)
+			}
+		}
+	}
+	if !bad {
+		r.Ok(rule, key, fn.Pos(), "the scan ends successfully only at the end of the file")
 	}
 	r.Min(rule, 1)
 }
